@@ -242,6 +242,20 @@ class patched:
             return orig_max(*args, **kw)
 
         builtins.max = sym_max
+        # sources of non-determinism fail closed: a modelling call that draws random numbers is not a function of its arguments
+        import random as _random
+
+        def forbidden(name):
+            def f(*a, **kw):
+                raise TraceEscape('the traced call draws random numbers (%s)' % name)
+            return f
+        self.saved_rand = []
+        for mod, names in ((numpy.random, ('default_rng', 'rand', 'randn', 'random', 'random_sample', 'normal', 'uniform', 'standard_normal', 'seed', 'choice', 'permutation', 'shuffle')),
+                           (_random, ('random', 'uniform', 'gauss', 'normalvariate', 'choice', 'shuffle', 'randint', 'seed'))):
+            for nm in names:
+                if hasattr(mod, nm):
+                    self.saved_rand.append((mod, nm, getattr(mod, nm)))
+                    setattr(mod, nm, forbidden('%s.%s' % (mod.__name__, nm)))
         ACTIVE[0] = True
         return self
 
@@ -249,6 +263,8 @@ class patched:
         numpy.exp = self.saved['exp']
         numpy.log = self.saved['log']
         builtins.max = self.saved_max
+        for mod, nm, orig in self.saved_rand:
+            setattr(mod, nm, orig)
         ACTIVE[0] = False
         return False
 
